@@ -59,7 +59,11 @@ ASSUMPTIONS = ["children that enter contexts of their own finish before their sp
 
 
 class Marker(Exception):
-    pass
+    # the exception that ends a block / fails a teardown cannot be printed: str() of it raises (a `__str__` that returns a
+    # non-string, a message built from an attribute that was never set); it is an exception like any other.  (repr() works:
+    # trio formats `{exc!r}` itself when a nursery block ends with an exception.)
+    def __str__(self) -> str:
+        raise TypeError("__str__ returned non-string (type int)")
 
 
 def gen_prog(rng: Any, depth: int, budget: list[int], in_ctx: bool) -> list[Any]:
